@@ -502,9 +502,39 @@ theorem runClose_spec (N : Num ν) (na : Nat) (cmd : Char) (st : St ν) (s1 : Sr
   refine ⟨hb, ni.1, ni.2, fun h => by simp [St.after] at h, ?_⟩
   exact .close hns rfl rfl
 
-theorem step_spec (N : Num ν) (na : Nat) (st : St ν) (s : Src) (hs : s.inp ≠ [])
+theorem isDrawing_blocks (fix : Bool) (cmd : Char) (hd : isDrawingCmd cmd = true) :
+    needStartBlocks fix cmd = true := by
+  unfold needStartBlocks
+  cases fix
+  · simp only [Bool.false_eq_true, if_false]
+    simp only [isDrawingCmd, Bool.or_eq_true, beq_iff_eq] at hd
+    rcases hd with (((((((((((((((((h | h) | h) | h) | h) | h) | h) | h) | h) | h) | h) | h) | h) | h) | h) | h) | h) | h) <;>
+      subst h <;> decide
+  · simpa using hd
+
+theorem edgeCmd_drawing (N : Num ν) (na : Nat) (cmd : Char) (st : St ν) (m : PM (EdgeOut ν))
+    (h : edgeCmd N na cmd st = some m) : isDrawingCmd cmd = true := by
+  unfold edgeCmd at h
+  simp only [isDrawingCmd, Bool.or_eq_true, beq_iff_eq]
+  split at h
+  · rename_i hc; simp only [Bool.or_eq_true, beq_iff_eq] at hc; rcases hc with hc | hc <;> simp [hc]
+  split at h
+  · rename_i hc; simp only [Bool.or_eq_true, beq_iff_eq] at hc; rcases hc with hc | hc <;> simp [hc]
+  split at h
+  · rename_i hc; simp only [Bool.or_eq_true, beq_iff_eq] at hc; rcases hc with hc | hc <;> simp [hc]
+  split at h
+  · rename_i hc; simp only [Bool.or_eq_true, beq_iff_eq] at hc; rcases hc with hc | hc <;> simp [hc]
+  split at h
+  · rename_i hc; simp only [Bool.or_eq_true, beq_iff_eq] at hc; rcases hc with hc | hc <;> simp [hc]
+  split at h
+  · rename_i hc; simp only [Bool.or_eq_true, beq_iff_eq] at hc; rcases hc with hc | hc <;> simp [hc]
+  split at h
+  · rename_i hc; simp only [Bool.or_eq_true, beq_iff_eq] at hc; rcases hc with hc | hc <;> simp [hc]
+  · cases h
+
+theorem step_spec (fix : Bool) (N : Num ν) (na : Nat) (st : St ν) (s : Src) (hs : s.inp ≠ [])
     (hz : st.implicit ≠ 'z') (hZ : st.implicit ≠ 'Z') :
-    StepSpec N na st s.len (step N na st s) := by
+    StepSpec N na st s.len (step fix N na st s) := by
   unfold step
   split
   · simp only [StepSpec, List.map_nil]; exact .plain
@@ -513,19 +543,22 @@ theorem step_spec (N : Num ν) (na : Nat) (st : St ν) (s : Src) (hs : s.inp ≠
     unfold dispatchCmd
     split
     · rename_i m hm
-      have hnm := edgeCmd_not_close N na _ st m hm
+      have hbl := isDrawing_blocks fix _ (edgeCmd_drawing N na _ st m hm)
       have hns : st.needStart = false := by
         cases h : st.needStart
         · rfl
-        · simp [h, hnm.1, hnm.2] at hchk
+        · simp [h, hbl] at hchk
       exact runEdge_spec N na _ st m hm _ _ hle hns
     · split
       · rename_i ha
         have hns : st.needStart = false := by
           cases h : st.needStart
           · rfl
-          · rcases (by simpa using ha : cmdOf st s = 'a' ∨ cmdOf st s = 'A') with h' | h' <;>
-              simp [h, h'] at hchk
+          · have hbl : needStartBlocks fix (cmdOf st s) = true := by
+              apply isDrawing_blocks
+              rcases (by simpa using ha : cmdOf st s = 'a' ∨ cmdOf st s = 'A') with h' | h' <;>
+                (rw [h']; decide)
+            simp [h, hbl] at hchk
         exact runArc_spec N na _ st _ _ hle hns
       · split
         · exact runMove_spec N na _ st _ _ hle
@@ -535,7 +568,10 @@ theorem step_spec (N : Num ν) (na : Nat) (st : St ν) (s : Src) (hs : s.inp ≠
             have hns : st.needStart = false := by
               cases h : st.needStart
               · rfl
-              · rcases hzz' with h' | h' <;> simp [h, h'] at hchk
+              · have hbl : needStartBlocks fix (cmdOf st s) = true := by
+                  apply isDrawing_blocks
+                  rcases hzz' with h' | h' <;> (rw [h']; decide)
+                simp [h, hbl] at hchk
             have halpha : s.cur.isAlpha = true := by
               cases h : s.cur.isAlpha
               · simp only [cmdOf, h] at hzz'
@@ -591,13 +627,13 @@ theorem failCalls_nest {st : St ν} {ne : Bool} {tr : List (PCall ν)} (h : Fail
   | plain => cases hh : st.needEnd <;> simp [nestState]
   | inMove => cases hh : st.needEnd <;> simp [nestState]
 
-theorem loop_succ (N : Num ν) (na : Nat) (stop : Option Char) (fuel : Nat) (st : St ν) (s : Src) :
-    loop N na stop (fuel + 1) st s =
+theorem loop_succ (fix : Bool) (N : Num ν) (na : Nat) (stop : Option Char) (fuel : Nat) (st : St ν) (s : Src) :
+    loop fix N na stop (fuel + 1) st s =
       if s.fin then ⟨closing st.needEnd s, .ok, s⟩
       else if stop == some s.cur then ⟨closing st.needEnd s, .ok, s⟩
       else
-        match step N na st s with
-        | .cont st' s' em => (loop N na stop fuel st' s'.skipWs).cons em
+        match step fix N na st s with
+        | .cont st' s' em => (loop fix N na stop fuel st' s'.skipWs).cons em
         | .fail e ne s' em => ⟨em ++ closing ne s', .err e, s'⟩
         | .panic s' em => ⟨em, .panic, s'⟩ := rfl
 
@@ -605,9 +641,9 @@ theorem inp_ne_of_not_fin {s : Src} (h : ¬ s.fin = true) : s.inp ≠ [] := by
   intro hn; apply h; simp [Src.fin, hn]
 
 /-- the fuel `length + 1` never runs out -/
-theorem loop_not_stuck (N : Num ν) (na : Nat) (stop : Option Char) (fuel : Nat) :
+theorem loop_not_stuck (fix : Bool) (N : Num ν) (na : Nat) (stop : Option Char) (fuel : Nat) :
     ∀ (st : St ν) (s : Src), s.len < fuel → st.implicit ≠ 'z' → st.implicit ≠ 'Z' →
-      (loop N na stop fuel st s).outcome ≠ .stuck := by
+      (loop fix N na stop fuel st s).outcome ≠ .stuck := by
   induction fuel with
   | zero => intro st s h; omega
   | succ fuel ih =>
@@ -618,8 +654,8 @@ theorem loop_not_stuck (N : Num ν) (na : Nat) (stop : Option Char) (fuel : Nat)
     by_cases hstop : (stop == some s.cur) = true
     · simp [hf, hstop]
     simp only [hf, hstop, if_false, Bool.false_eq_true]
-    have sp := step_spec N na st s (inp_ne_of_not_fin hf) hz hZ
-    cases hstep : step N na st s with
+    have sp := step_spec fix N na st s (inp_ne_of_not_fin hf) hz hZ
+    cases hstep : step fix N na st s with
     | cont st' s' em =>
       rw [hstep] at sp
       simp only [StepSpec] at sp
@@ -638,10 +674,10 @@ theorem trace_cons (em : List (Emit ν)) (r : Result ν) :
 
 /-- from a non-defective state the calls are prefix-safe, and properly closed when the parser
 returns -/
-theorem loop_nest (N : Num ν) (na : Nat) (stop : Option Char) (fuel : Nat) :
+theorem loop_nest (fix : Bool) (N : Num ν) (na : Nat) (stop : Option Char) (fuel : Nat) :
     ∀ (st : St ν) (s : Src), Good st → st.implicit ≠ 'z' → st.implicit ≠ 'Z' →
-      ∃ b, nestState st.needEnd (loop N na stop fuel st s).trace = some b ∧
-        ((loop N na stop fuel st s).closed → b = false) := by
+      ∃ b, nestState st.needEnd (loop fix N na stop fuel st s).trace = some b ∧
+        ((loop fix N na stop fuel st s).closed → b = false) := by
   induction fuel with
   | zero =>
     intro st s _ _ _
@@ -661,8 +697,8 @@ theorem loop_nest (N : Num ν) (na : Nat) (stop : Option Char) (fuel : Nat) :
     by_cases hstop : (stop == some s.cur) = true
     · simpa [hf, hstop] using fin_case
     simp only [hf, hstop, if_false, Bool.false_eq_true]
-    have sp := step_spec N na st s (inp_ne_of_not_fin hf) hz hZ
-    cases hstep : step N na st s with
+    have sp := step_spec fix N na st s (inp_ne_of_not_fin hf) hz hZ
+    cases hstep : step fix N na st s with
     | cont st' s' em =>
       rw [hstep] at sp
       simp only [StepSpec] at sp
@@ -695,11 +731,11 @@ def startsOk : List (PCall ν) → Prop
 
 /-- from a state with no open sub-path (in particular the initial state of the current code):
 if the first call is a `begin`, the calls are prefix-safe and closed when the parser returns -/
-theorem loop_nest_start (N : Num ν) (na : Nat) (stop : Option Char) (fuel : Nat) :
+theorem loop_nest_start (fix : Bool) (N : Num ν) (na : Nat) (stop : Option Char) (fuel : Nat) :
     ∀ (st : St ν) (s : Src), st.needEnd = false → st.implicit ≠ 'z' → st.implicit ≠ 'Z' →
-      startsOk (loop N na stop fuel st s).trace →
-      ∃ b, nestState false (loop N na stop fuel st s).trace = some b ∧
-        ((loop N na stop fuel st s).closed → b = false) := by
+      startsOk (loop fix N na stop fuel st s).trace →
+      ∃ b, nestState false (loop fix N na stop fuel st s).trace = some b ∧
+        ((loop fix N na stop fuel st s).closed → b = false) := by
   induction fuel with
   | zero =>
     intro st s _ _ _ _
@@ -716,8 +752,8 @@ theorem loop_nest_start (N : Num ν) (na : Nat) (stop : Option Char) (fuel : Nat
       refine ⟨false, ?_, fun _ => rfl⟩
       simp [hf, hstop, Result.trace, closing, hne, nestState]
     simp only [hf, hstop, if_false, Bool.false_eq_true]
-    have sp := step_spec N na st s (inp_ne_of_not_fin hf) hz hZ
-    cases hstep : step N na st s with
+    have sp := step_spec fix N na st s (inp_ne_of_not_fin hf) hz hZ
+    cases hstep : step fix N na st s with
     | cont st' s' em =>
       rw [hstep] at sp
       simp only [StepSpec] at sp
@@ -738,7 +774,7 @@ theorem loop_nest_start (N : Num ν) (na : Nat) (stop : Option Char) (fuel : Nat
           cases c <;> simp [isEdge] at hc <;> simp [startsOk] at hso
       | move p a hne' hns' =>
         intro _
-        obtain ⟨b, hb, hcl⟩ := loop_nest N na stop fuel st' s'.skipWs (Or.inl hne') hz' hZ'
+        obtain ⟨b, hb, hcl⟩ := loop_nest fix N na stop fuel st' s'.skipWs (Or.inl hne') hz' hZ'
         refine ⟨b, ?_, fun hc => hcl (by simpa [Result.closed, Result.cons] using hc)⟩
         simp only [hne, Bool.false_eq_true, if_false, List.nil_append, List.cons_append, nestState]
         rw [hne'] at hb; exact hb
@@ -762,11 +798,11 @@ theorem loop_nest_start (N : Num ν) (na : Nat) (stop : Option Char) (fuel : Nat
 
 /-- no panic: the arc conversion does not panic, and either there are no custom attributes or
 the attribute buffer has been filled (always the case after a move-to) -/
-theorem loop_no_panic (N : Num ν) (na : Nat) (stop : Option Char)
+theorem loop_no_panic (fix : Bool) (N : Num ν) (na : Nat) (stop : Option Char)
     (harc : ∀ pos a, N.arc pos a ≠ none) (fuel : Nat) :
     ∀ (st : St ν) (s : Src), st.implicit ≠ 'z' → st.implicit ≠ 'Z' →
       (na = 0 ∨ (st.needStart = false → st.attrs.length = na)) →
-      (loop N na stop fuel st s).outcome ≠ .panic := by
+      (loop fix N na stop fuel st s).outcome ≠ .panic := by
   induction fuel with
   | zero => intro st s _ _ _; simp [loop]
   | succ fuel ih =>
@@ -777,8 +813,8 @@ theorem loop_no_panic (N : Num ν) (na : Nat) (stop : Option Char)
     by_cases hstop : (stop == some s.cur) = true
     · simp [hf, hstop]
     simp only [hf, hstop, if_false, Bool.false_eq_true]
-    have sp := step_spec N na st s (inp_ne_of_not_fin hf) hz hZ
-    cases hstep : step N na st s with
+    have sp := step_spec fix N na st s (inp_ne_of_not_fin hf) hz hZ
+    cases hstep : step fix N na st s with
     | cont st' s' em =>
       rw [hstep] at sp
       simp only [StepSpec] at sp
@@ -794,5 +830,445 @@ theorem loop_no_panic (N : Num ν) (na : Nat) (stop : Option Char)
       · rcases hJ with h0 | hJ
         · omega
         · have := hJ sp.2.1; omega
+
+/-! ### F. Positions: every source the parser reaches is the initial one advanced `n` times -/
+
+/-- `advance_one` applied `n` times -/
+def advN : Nat → Src → Src
+  | 0, s => s
+  | n + 1, s => advN n s.adv
+
+def Reach (s0 s : Src) : Prop := ∃ n, s = advN n s0
+
+theorem advN_add (a b : Nat) (s : Src) : advN (a + b) s = advN b (advN a s) := by
+  induction a generalizing s with
+  | zero => simp [advN]
+  | succ a ih => rw [Nat.succ_add]; simp [advN, ih]
+
+theorem Reach.refl (s : Src) : Reach s s := ⟨0, rfl⟩
+theorem Reach.trans {a b c : Src} (h1 : Reach a b) (h2 : Reach b c) : Reach a c := by
+  obtain ⟨n, rfl⟩ := h1; obtain ⟨m, rfl⟩ := h2; exact ⟨n + m, (advN_add n m a).symm⟩
+theorem Reach.adv (s : Src) : Reach s s.adv := ⟨1, rfl⟩
+
+theorem advWhileL_reach (p : Char → Bool) (l : List Char) (a b : Int) :
+    Reach ⟨l, a, b⟩ (advWhileL p l a b) := by
+  induction l generalizing a b with
+  | nil => exact Reach.refl _
+  | cons c r ih =>
+    unfold advWhileL
+    split
+    · exact Reach.trans (Reach.adv ⟨c :: r, a, b⟩) (ih _ _)
+    · exact Reach.refl _
+
+theorem advWhile_reach (p : Char → Bool) (s : Src) : Reach s (s.advWhile p) :=
+  advWhileL_reach p s.inp s.line s.col
+
+theorem skipWs_reach (s : Src) : Reach s s.skipWs := advWhile_reach _ s
+
+theorem optChar_reach (p : Char → Bool) (s : Src) : Reach s (optChar p s).2 := by
+  unfold optChar
+  split
+  · exact Reach.refl _
+  · split
+    · exact Reach.adv s
+    · exact Reach.refl _
+
+theorem digitsOf_reach (s : Src) : Reach s (digitsOf s).2 := advWhile_reach _ s
+
+theorem lexMant_reach (s : Src) : Reach s (lexMant s).2 :=
+  Reach.trans (optChar_reach _ s) (digitsOf_reach _)
+
+theorem lexFrac_reach (s : Src) : Reach s (lexFrac s).2 := by
+  unfold lexFrac
+  split
+  · exact Reach.refl _
+  · split
+    · exact Reach.trans (Reach.adv s) (digitsOf_reach _)
+    · exact Reach.refl _
+
+theorem lexExp_reach (s : Src) : Reach s (lexExp s).2 := by
+  unfold lexExp
+  split
+  · exact Reach.refl _
+  · split
+    · exact Reach.trans (Reach.adv s) (lexMant_reach _)
+    · exact Reach.refl _
+
+theorem lexNum_reach (s : Src) : Reach s (lexNum s).2 :=
+  Reach.trans (lexMant_reach s) (Reach.trans (lexFrac_reach _) (lexExp_reach _))
+
+/-- an error's position is that of a source reached from `s` -/
+def ErrAt (s : Src) (e : Err) : Prop := ∃ t, Reach s t ∧ e.line = t.line ∧ e.col = t.col
+
+theorem ErrAt.mono {s0 s : Src} {e : Err} (h : Reach s0 s) (he : ErrAt s e) : ErrAt s0 e := by
+  obtain ⟨t, ht, hl, hc⟩ := he; exact ⟨t, Reach.trans h ht, hl, hc⟩
+
+structure Tracks {α} (m : PM α) : Prop where
+  ok : ∀ s a s', m s = .ok a s' → Reach s s'
+  err : ∀ s e s', m s = .err e s' → Reach s s' ∧ ErrAt s e
+
+theorem pure_tracks {α} (a : α) : Tracks (pure a : PM α) := by
+  constructor
+  · intro s b s' h; rw [(pure_ok h).2]; exact Reach.refl _
+  · intro s e s' h; simp [pure, PM.pure] at h
+
+theorem bind_tracks {α β} {m : PM α} {f : α → PM β} (hm : Tracks m) (hf : ∀ a, Tracks (f a)) :
+    Tracks (m >>= f) := by
+  constructor
+  · intro s b s' h
+    obtain ⟨a, s1, h1, h2⟩ := bind_ok h
+    exact Reach.trans (hm.ok _ _ _ h1) ((hf a).ok _ _ _ h2)
+  · intro s e s' h
+    simp only [bind, PM.bind] at h
+    cases h1 : m s with
+    | ok a s1 =>
+      rw [h1] at h
+      have r1 := hm.ok _ _ _ h1
+      obtain ⟨r2, e2⟩ := (hf a).err _ _ _ h
+      exact ⟨Reach.trans r1 r2, ErrAt.mono r1 e2⟩
+    | err e1 s1 =>
+      rw [h1] at h
+      cases h
+      exact hm.err _ _ _ h1
+
+theorem parseNumber_tracks (N : Num ν) : Tracks (parseNumber N) := by
+  constructor
+  · intro s a s' h
+    unfold parseNumber at h
+    split at h
+    · cases h; exact Reach.trans (skipWs_reach s) (lexNum_reach _)
+    · cases h
+  · intro s e s' h
+    unfold parseNumber at h
+    split at h
+    · cases h
+    · cases h
+      exact ⟨Reach.trans (skipWs_reach s) (lexNum_reach _), s.skipWs, skipWs_reach s, rfl, rfl⟩
+
+theorem parseFlag_tracks : Tracks parseFlag := by
+  constructor
+  · intro s a s' h
+    unfold parseFlag at h
+    split at h
+    · cases h; exact Reach.trans (skipWs_reach s) (Reach.adv _)
+    · split at h
+      · cases h; exact Reach.trans (skipWs_reach s) (Reach.adv _)
+      · cases h
+  · intro s e s' h
+    unfold parseFlag at h
+    split at h
+    · cases h
+    · split at h
+      · cases h
+      · cases h; exact ⟨skipWs_reach s, s.skipWs, skipWs_reach s, rfl, rfl⟩
+
+theorem parsePoint_tracks (N : Num ν) (rel : Bool) (cur : Pt ν) : Tracks (parsePoint N rel cur) :=
+  bind_tracks (parseNumber_tracks N) fun _ => bind_tracks (parseNumber_tracks N) fun _ => pure_tracks _
+
+theorem parseAttrs_tracks (N : Num ν) (n : Nat) : Tracks (parseAttrs N n) := by
+  induction n with
+  | zero => exact pure_tracks _
+  | succ n ih =>
+    exact bind_tracks (parseNumber_tracks N) fun _ => bind_tracks ih fun _ => pure_tracks _
+
+theorem parseEndpoint_tracks (N : Num ν) (na : Nat) (rel : Bool) (cur : Pt ν) :
+    Tracks (parseEndpoint N na rel cur) :=
+  bind_tracks (parsePoint_tracks N rel cur) fun _ =>
+    bind_tracks (parseAttrs_tracks N na) fun _ => pure_tracks _
+
+theorem edgeCmd_tracks (N : Num ν) (na : Nat) (cmd : Char) (st : St ν) (m : PM (EdgeOut ν))
+    (h : edgeCmd N na cmd st = some m) : Tracks m := by
+  have pe := fun rel => parseEndpoint_tracks N na rel st.cur
+  have pp := fun rel => parsePoint_tracks N rel st.cur
+  have pn := parseNumber_tracks N
+  have pa := parseAttrs_tracks N na
+  unfold edgeCmd at h
+  split at h
+  · cases h; exact bind_tracks (pe _) fun _ => pure_tracks _
+  split at h
+  · cases h; exact bind_tracks pn fun _ => bind_tracks pa fun _ => pure_tracks _
+  split at h
+  · cases h; exact bind_tracks pn fun _ => bind_tracks pa fun _ => pure_tracks _
+  split at h
+  · cases h; exact bind_tracks (pp _) fun _ => bind_tracks (pe _) fun _ => pure_tracks _
+  split at h
+  · cases h; exact bind_tracks (pe _) fun _ => pure_tracks _
+  split at h
+  · cases h
+    exact bind_tracks (pp _) fun _ => bind_tracks (pp _) fun _ => bind_tracks (pe _) fun _ => pure_tracks _
+  split at h
+  · cases h; exact bind_tracks (pp _) fun _ => bind_tracks (pe _) fun _ => pure_tracks _
+  · cases h
+
+theorem cmdAArgs_tracks (N : Num ν) (na rel) (st : St ν) : Tracks (cmdAArgs N na rel st) :=
+  bind_tracks (parseNumber_tracks N) fun _ =>
+    bind_tracks (parseNumber_tracks N) fun _ =>
+      bind_tracks (parseNumber_tracks N) fun _ =>
+        bind_tracks parseFlag_tracks fun _ =>
+          bind_tracks parseFlag_tracks fun _ =>
+            bind_tracks (parseEndpoint_tracks N na rel st.cur) fun _ => pure_tracks _
+
+/-- where one iteration leaves the source, and where its error (if any) points -/
+def StepPos (s0 : Src) : StepOut ν → Prop
+  | .cont _ s' _ => Reach s0 s'
+  | .fail e _ s' _ => Reach s0 s' ∧ ErrAt s0 e
+  | .panic s' _ => Reach s0 s'
+
+theorem afterCmd_reach (s : Src) : Reach s (afterCmd s) := by
+  unfold afterCmd; split
+  · exact Reach.adv s
+  · exact Reach.refl _
+
+theorem step_pos (fix : Bool) (N : Num ν) (na : Nat) (st : St ν) (s : Src) :
+    StepPos s (step fix N na st s) := by
+  have ha := afterCmd_reach s
+  have here : ErrAt s (.missingMoveTo (cmdOf st s) s.line s.col) := ⟨s, Reach.refl _, rfl, rfl⟩
+  have here' : ErrAt s (.command (cmdOf st s) s.line s.col) := ⟨s, Reach.refl _, rfl, rfl⟩
+  unfold step
+  split
+  · exact ⟨ha, here⟩
+  · unfold dispatchCmd
+    split
+    · rename_i m hm
+      have tr := edgeCmd_tracks N na _ st m hm
+      unfold runEdge
+      split
+      · rename_i heq; exact Reach.trans ha (tr.ok _ _ _ heq)
+      · rename_i heq
+        obtain ⟨r, e⟩ := tr.err _ _ _ heq
+        exact ⟨Reach.trans ha r, ErrAt.mono ha e⟩
+    · split
+      · have tr := cmdAArgs_tracks N na (cmdOf st s).isLower st
+        unfold runArc
+        split
+        · rename_i heq
+          have r := Reach.trans ha (tr.ok _ _ _ heq)
+          unfold arcEmit
+          split
+          · exact r
+          · split
+            · exact r
+            · split
+              · exact r
+              · exact r
+        · rename_i heq
+          obtain ⟨r, e⟩ := tr.err _ _ _ heq
+          exact ⟨Reach.trans ha r, ErrAt.mono ha e⟩
+      · split
+        · have tr := parseEndpoint_tracks N na (cmdOf st s).isLower st.cur
+          unfold runMove
+          split
+          · rename_i heq; exact Reach.trans ha (tr.ok _ _ _ heq)
+          · rename_i heq
+            obtain ⟨r, e⟩ := tr.err _ _ _ heq
+            exact ⟨Reach.trans ha r, ErrAt.mono ha e⟩
+        · split
+          · exact ha
+          · exact ⟨ha, here'⟩
+
+/-- an error returned by the loop points at a source reached from where the loop started, and
+so does the final source -/
+theorem loop_pos (fix : Bool) (N : Num ν) (na : Nat) (stop : Option Char) (fuel : Nat) :
+    ∀ (st : St ν) (s : Src),
+      Reach s (loop fix N na stop fuel st s).final ∧
+      ∀ e, (loop fix N na stop fuel st s).outcome = .err e → ErrAt s e := by
+  induction fuel with
+  | zero => intro st s; exact ⟨Reach.refl _, fun e h => by simp [loop] at h⟩
+  | succ fuel ih =>
+    intro st s
+    rw [loop_succ]
+    by_cases hf : s.fin = true
+    · simp only [hf, if_true]; exact ⟨Reach.refl _, fun e h => by simp at h⟩
+    by_cases hstop : (stop == some s.cur) = true
+    · simp only [hf, hstop, if_true, if_false, Bool.false_eq_true]
+      exact ⟨Reach.refl _, fun e h => by simp at h⟩
+    simp only [hf, hstop, if_false, Bool.false_eq_true]
+    have sp := step_pos fix N na st s
+    cases hstep : step fix N na st s with
+    | cont st' s' em =>
+      rw [hstep] at sp
+      simp only [StepPos] at sp
+      have r := Reach.trans sp (skipWs_reach s')
+      obtain ⟨h1, h2⟩ := ih st' s'.skipWs
+      exact ⟨Reach.trans r h1, fun e h => ErrAt.mono r (h2 e (by simpa [Result.cons] using h))⟩
+    | fail e ne s' em =>
+      rw [hstep] at sp
+      simp only [StepPos] at sp
+      exact ⟨sp.1, fun e' h => by simp at h; rw [← h]; exact sp.2⟩
+    | panic s' em =>
+      rw [hstep] at sp
+      simp only [StepPos] at sp
+      exact ⟨sp, fun e' h => by simp at h⟩
+
+/-! closed forms for the position after `n` × `advance_one` -/
+
+theorem advN_inp (n : Nat) (s : Src) : (advN n s).inp = s.inp.drop n := by
+  induction n generalizing s with
+  | zero => simp [advN]
+  | succ n ih =>
+    simp only [advN, ih, adv_inp]
+    cases s.inp <;> simp
+
+def nlCount (l : List Char) : Int := (l.count '\n' : Nat)
+
+theorem nextLine_eq (r : List Char) (l : Int) : nextLine r l = l + nlCount (r.take 1) := by
+  cases r with
+  | nil => simp [nextLine, nlCount]
+  | cons c t =>
+    by_cases h : c = '\n'
+    · subst h; simp [nextLine, nlCount]
+    · have : ('\n' == c) = false := by simp [Ne.symm h]
+      simp [nextLine, nlCount, h, List.count_cons, this]
+
+theorem nlCount_take_succ (r : List Char) (n : Nat) :
+    nlCount (r.take (n + 1)) = nlCount (r.take 1) + nlCount (r.tail.take n) := by
+  cases r with
+  | nil => simp [nlCount]
+  | cons c t => simp [nlCount, List.count_cons]; omega
+
+/-- line after `n` steps: the newlines among the `n` characters stepped onto -/
+theorem advN_line (n : Nat) (s : Src) (hn : n < s.inp.length) :
+    (advN n s).line = s.line + nlCount (s.inp.tail.take n) := by
+  induction n generalizing s with
+  | zero => simp [advN, nlCount]
+  | succ n ih =>
+    cases hs : s.inp with
+    | nil => simp [hs] at hn
+    | cons c r =>
+      have hadv : s.adv = ⟨r, nextLine r s.line, nextCol r s.col⟩ := by simp [Src.adv, hs]
+      have hn' : n < (s.adv).inp.length := by simp [hadv]; simp [hs] at hn; omega
+      rw [advN, ih s.adv hn', hadv]
+      simp only [List.tail_cons, nextLine_eq, nlCount_take_succ r n]
+      omega
+
+/-- column after `n` steps none of which lands on a newline -/
+theorem advN_col_plain (n : Nat) (s : Src) (hn : n < s.inp.length)
+    (hnl : ∀ c ∈ s.inp.tail.take n, c ≠ '\n') : (advN n s).col = s.col + n := by
+  induction n generalizing s with
+  | zero => simp [advN]
+  | succ n ih =>
+    cases hs : s.inp with
+    | nil => simp [hs] at hn
+    | cons c r =>
+      simp only [hs, List.tail_cons] at hnl
+      cases hr : r with
+      | nil => simp [hs, hr] at hn
+      | cons d t =>
+        have hd : d ≠ '\n' := hnl d (by simp [hr])
+        have hadv : s.adv = ⟨d :: t, nextLine (d :: t) s.line, s.col + 1⟩ := by
+          simp [Src.adv, hs, hr, nextCol, hd]
+        have hn' : n < (s.adv).inp.length := by
+          simp [hadv]; simp [hs, hr] at hn; omega
+        have := ih s.adv hn' (by
+          intro x hx; apply hnl x
+          rw [hadv] at hx; simp only [List.tail_cons] at hx
+          rw [hr]; simp only [List.take_succ_cons]; exact List.mem_cons_of_mem _ hx)
+        rw [advN, this, hadv]; simp only []; omega
+
+/-- stepping onto a newline sets the column to -1 -/
+theorem adv_col_newline (s : Src) (c : Char) (t : List Char) (hs : s.inp = c :: '\n' :: t) :
+    s.adv.col = -1 := by
+  simp [Src.adv, hs, nextCol]
+
+/-! ### G. Round trip: the lexer on lists, printed numbers parse back -/
+
+def optL (p : Char → Bool) : List Char → List Char × List Char
+  | [] => ([], [])
+  | c :: r => if p c then ([c], r) else ([], c :: r)
+
+def digitsL (l : List Char) : List Char × List Char := (l.takeWhile isNumeric, l.dropWhile isNumeric)
+
+def lexMantL (l : List Char) : List Char × List Char :=
+  ((optL (· == '-') l).1 ++ (digitsL (optL (· == '-') l).2).1, (digitsL (optL (· == '-') l).2).2)
+
+def lexFracL : List Char → List Char × List Char
+  | [] => ([], [])
+  | c :: r => if c == '.' then ('.' :: (digitsL r).1, (digitsL r).2) else ([], c :: r)
+
+def lexExpL : List Char → List Char × List Char
+  | [] => ([], [])
+  | c :: r => if c == 'e' || c == 'E' then (c :: (lexMantL r).1, (lexMantL r).2) else ([], c :: r)
+
+/-- `lexNum` on the character list alone: (collected lexeme, remaining input) -/
+def lexNumL (l : List Char) : List Char × List Char :=
+  ((lexMantL l).1 ++ (lexFracL (lexMantL l).2).1 ++ (lexExpL (lexFracL (lexMantL l).2).2).1,
+   (lexExpL (lexFracL (lexMantL l).2).2).2)
+
+theorem optChar_list (p : Char → Bool) (s : Src) :
+    (optChar p s).1 = (optL p s.inp).1 ∧ (optChar p s).2.inp = (optL p s.inp).2 := by
+  unfold optChar
+  cases h : s.inp with
+  | nil => simp [optL, h]
+  | cons c r => by_cases hp : p c <;> simp [optL, hp, adv_inp, h]
+
+theorem digitsOf_list (s : Src) :
+    (digitsOf s).1 = (digitsL s.inp).1 ∧ (digitsOf s).2.inp = (digitsL s.inp).2 := by
+  simp [digitsOf, digitsL, advWhile_inp]
+
+theorem lexMant_list (s : Src) :
+    (lexMant s).1 = (lexMantL s.inp).1 ∧ (lexMant s).2.inp = (lexMantL s.inp).2 := by
+  have h1 := optChar_list (· == '-') s
+  have h2 := digitsOf_list (optChar (· == '-') s).2
+  simp only [lexMant, lexMantL, h1.1, h2.1, h2.2, h1.2, and_self]
+
+theorem lexFrac_list (s : Src) :
+    (lexFrac s).1 = (lexFracL s.inp).1 ∧ (lexFrac s).2.inp = (lexFracL s.inp).2 := by
+  unfold lexFrac
+  cases h : s.inp with
+  | nil => simp [lexFracL, h]
+  | cons c r =>
+    have h2 := digitsOf_list s.adv
+    have h3 : s.adv.inp = r := by simp [adv_inp, h]
+    by_cases hc : c = '.'
+    · simp [lexFracL, hc, h2.1, h2.2, h3]
+    · simp [lexFracL, hc, h]
+
+theorem lexExp_list (s : Src) :
+    (lexExp s).1 = (lexExpL s.inp).1 ∧ (lexExp s).2.inp = (lexExpL s.inp).2 := by
+  unfold lexExp
+  cases h : s.inp with
+  | nil => simp [lexExpL, h]
+  | cons c r =>
+    have h2 := lexMant_list s.adv
+    have h3 : s.adv.inp = r := by simp [adv_inp, h]
+    by_cases hc : (c == 'e' || c == 'E') = true
+    · simp only [lexExpL, hc, if_true, lexExpTail]
+      exact ⟨by rw [show (lexMant s.adv).1 = (lexMantL r).1 from by rw [h2.1, h3]],
+             by rw [show (lexMant s.adv).2.inp = (lexMantL r).2 from by rw [h2.2, h3]]⟩
+    · simp [lexExpL, hc, h]
+
+theorem lexNum_list (s : Src) :
+    (lexNum s).1 = (lexNumL s.inp).1 ∧ (lexNum s).2.inp = (lexNumL s.inp).2 := by
+  have h1 := lexMant_list s
+  have h2 := lexFrac_list (lexMant s).2
+  have h3 := lexExp_list (lexFrac (lexMant s).2).2
+  simp only [lexNum, lexNumL, h1.1, h2.1, h3.1, h3.2, h2.2, h1.2, and_self]
+
+/-- what the round trip needs from the number printer `pn` (`<f32 as Debug>::fmt`) -/
+structure PrintOK (N : Num ν) (pn : ν → List Char) : Prop where
+  /-- a printed number is accepted by `f32::from_str` … -/
+  valid : ∀ x, validF32 (pn x) = true
+  /-- … and reads back as the same value -/
+  value : ∀ x, N.ofLexeme (pn x) = x
+  /-- it does not start with a separator -/
+  head : ∀ x, ∃ c l, pn x = c :: l ∧ isSep c = false
+  /-- followed by a space or the end of the text it is exactly one lexer token -/
+  token : ∀ x rest, (rest = [] ∨ ∃ r, rest = ' ' :: r) → lexNumL (pn x ++ rest) = (pn x, rest)
+
+/-- text that can follow a printed number: nothing, or something starting with a space -/
+def Boundary (rest : List Char) : Prop := rest = [] ∨ ∃ r, rest = ' ' :: r
+
+theorem parseNumber_print (N : Num ν) (pn : ν → List Char) (hp : PrintOK N pn) (x : ν)
+    (rest : List Char) (hb : Boundary rest) (s : Src) (hs : s.inp = ' ' :: (pn x ++ rest)) :
+    ∃ s', parseNumber N s = .ok x s' ∧ s'.inp = rest := by
+  obtain ⟨c, l, hcl, hsep⟩ := hp.head x
+  have hskip : s.skipWs.inp = pn x ++ rest := by
+    have : isSep ' ' = true := by decide
+    simp [Src.skipWs, advWhile_inp, hs, hcl, List.dropWhile_cons, this, hsep]
+  have hl := lexNum_list s.skipWs
+  rw [hskip, hp.token x rest hb] at hl
+  refine ⟨(lexNum s.skipWs).2, ?_, hl.2⟩
+  unfold parseNumber
+  simp only [hl.1, hp.valid x, if_true, hp.value x]
 
 end Lyon.Parser
